@@ -155,7 +155,32 @@ class PatGen:
                 return True
         return False
 
+    def unsuffix(self, p):
+        """drop the type suffix of some literals / ranges (only where the front end can still read them:
+        a range needs both ends of the same token kind, i.e. both non-negative or both negative)"""
+        if isinstance(p, PLit) and isinstance(p.ty, TInt):
+            if self.chance(0.35):
+                p.suffix = False
+        elif isinstance(p, PRange):
+            if self.chance(0.35) and (p.lo >= 0 or p.hi < 0):
+                p.suffix = False
+        elif isinstance(p, PTup):
+            for q in p.ps:
+                self.unsuffix(q)
+        elif isinstance(p, PStruct):
+            for _, q in p.fields:
+                self.unsuffix(q)
+        elif isinstance(p, PEnum):
+            for q in p.ps:
+                self.unsuffix(q)
+
     def arms(self, ty):
+        arms = self._arms(ty)
+        for a in arms:
+            self.unsuffix(a)
+        return arms
+
+    def _arms(self, ty):
         arms = self.cover(ty)
         r = self.rng.random()
         if r < 0.25 and len(arms) > 1:
